@@ -596,7 +596,6 @@ func (x *Exec) cutLoop(s *State, ord int, label string, spec *LoopSpec, pos toke
 		if f.iterStarts == nil {
 			f.iterStarts = map[int]*State{}
 		}
-		f.iterStarts[ord] = b.clone()
 		var dec0 *Term
 		if spec != nil && spec.Decreases != nil {
 			dec0 = x.evalClauseVal(b, spec.Decreases)
@@ -604,6 +603,8 @@ func (x *Exec) cutLoop(s *State, ord int, label string, spec *LoopSpec, pos toke
 		if pre != nil {
 			pre(b)
 		}
+		// snapshot for iterStart(ord, e): taken after the range variables of this iteration are assigned
+		f.iterStarts[ord] = b.clone()
 		savedDepth := x.blockDepth
 		x.blockDepth = 0
 		bouts := x.execBlockM([]*State{b}, body.List)
@@ -812,6 +813,11 @@ func (x *Exec) rangeLoop(s *State, n *ast.RangeStmt, ord int, label string, spec
 	b := h.clone()
 	b.assume(Cmp("<", i, length))
 	pre(b)
+	// snapshot for iterStart(ord, e): after the range variables of this iteration are assigned
+	if f.iterStarts == nil {
+		f.iterStarts = map[int]*State{}
+	}
+	f.iterStarts[ord] = b.clone()
 	savedDepth := x.blockDepth
 	x.blockDepth = 0
 	bouts := x.execBlockM([]*State{b}, n.Body.List)
